@@ -1116,7 +1116,21 @@ func (e *executor) executeGroupBy(ctx context.Context, index string, c *pql.Call
 			return nil, errors.Wrap(err, "getting column")
 		}
 		if hasLimit || hasCol { // we need to perform this query cluster-wide ahead of executeGroupByShard
-			childRows[i], err = e.executeRows(ctx, index, child, shards, opt)
+			// The rows a child selects are a property of the whole index. A remote
+			// node is only handed its own shards: let it ask the cluster as well,
+			// or every node would group by a different set of rows.
+			rowShards, rowOpt := shards, opt
+			if opt.Remote {
+				idx := e.Holder.Index(index)
+				if idx == nil {
+					return nil, ErrIndexNotFound
+				}
+				rowShards = idx.AvailableShards().Slice()
+				o := *opt
+				o.Remote = false
+				rowOpt = &o
+			}
+			childRows[i], err = e.executeRows(ctx, index, child, rowShards, rowOpt)
 			if err != nil {
 				return nil, errors.Wrap(err, "getting rows for ")
 			}
